@@ -76,7 +76,7 @@ def run(check: Check) -> None:
 
 
 # ------------------------------------------------------------------------------------------------ H5
-def step_state(check: Check) -> None:
+def step_state(check: Check, reads: bool = True) -> None:
     p = check.program
     cg = CallGraph(p)
     pred = cg.reachable(["Engine.process"])
@@ -120,6 +120,8 @@ def step_state(check: Check) -> None:
                         "when the values it was computed from change", f"{f_.file}:{line}" if f_ is not None else site)
     check.ok("H5", "Engine.process/step-state", f"state written by a processing step: {sorted(k for k in written if k in EXPECTED_STEP_STATE)}",
              "fuzzylite/engine.py", {"written": {k: v[:3] for k, v in written.items() if k in EXPECTED_STEP_STATE}})
+    if not reads:
+        return
     # (2) reads of Variable.value on the process path
     sites = 0
     for q in sorted(pred):
